@@ -15,7 +15,7 @@ Tie to source
   * kernel results (leig, peig, eig, pinv, solve, inv, newton) are parameters of the
     model; the contract each theorem assumes of them is checked numerically here.
 
-Oracles (implementation only, first principles): `solve`, `monotone`, `history`.
+Oracles (implementation only, first principles): `solve`, `monotone`, `history`, `refill`.
 """
 import copy
 import math
@@ -126,6 +126,25 @@ CLAIM = {
             'fork the numeric result of a later solve is not compared bitwise (another memory layout legitimately selects '
             'another eigenvector of an under-determined system).  R14 counts: K = 257 users in every quick run, 258 / 300 / '
             '257 with a min-leakage solve in thorough, max_iterations 257 / 300; the theorems hold for every K.  '
+            'ROBUSTNESS CLASSES R15-R16.  R15 distinct values that are merely close: by theorem '
+            '(setter_takes_effect_for_every_new_value: after P = v from ANY state the getters return the new value and '
+            'F*sqrt(new value), the previous power and cache do not enter; power_lookup_exact: different accepted powers are '
+            'never identified; matrix_setters_take_effect_for_every_new_value) + correspondence and oracle on deterministic '
+            'histories in every run: powers 1e-9..1e-15 after each other, 2.4e9 vs 2.4e9+2e4, adjacent doubles around 0.3 / 1.0, '
+            'differences beyond the 12th decimal, through P= / randomizeF / set_precoders / solve on the base class and the '
+            'solvers; precoders, scaled precoders and filters followed by a variant one ulp / 1e-13 / 1e-9 / 1e-6 away, '
+            'filters of magnitude 1e-12 vs 1e-13; channel refills that differ by a relative 1e-6; stored powers compared '
+            'exactly, everything else relative.  R16 argument identity and buffer reuse: by theorem '
+            '(buffer_reuse_equals_fresh_copies: a history driven through ONE refilled buffer, also in several roles of one '
+            'call, equals the run on private copies made at call time; later_refills_do_not_change_earlier_outputs) + '
+            'correspondence (a quarter of the random histories and one deterministic history per object kind hand every '
+            'array argument - P, Ns, F, full_F, W, W_H and their containers - over in one buffer per role that is refilled '
+            'in place before and overwritten right after every call; one container as F and full_F, one matrix object for '
+            'all users, one integer array as Ns and P, the object\'s own F / full_F / W / W_H / P handed back to its setters; '
+            'the model sees the contents at call time) + oracle (twin object fed fresh arrays; refill oracle: ONE channel '
+            'matrix buffer refilled and re-installed in the SAME channel object before 2-4 solves of the SAME solver of every '
+            'kind, k-th solution = that of a fresh solver on a fresh channel built from a copy, relations and closed-form '
+            'nulling for the CURRENT channel, arrays returned earlier unchanged).  '
             'Closed form (directly, use_best_init True/False, and as the closed_form initialisation of every '
             'iterative solver): exercised for N = 2..8 and EVERY Ns in 1..N/2 (its domain: 3 users, one antenna count, N - Ns >= '
             'Ns; the code needs square channels; above N/2 perfect nulling is impossible), with the stream-shape clause '
@@ -637,6 +656,34 @@ def gen_unit(seed, rows, cols):
     return out
 
 
+NEAR_KINDS = ['ulp', 'rel1e-6', '1e-13', 'rel1e-9']
+
+
+def near_mats(mats, kind, seed, unit):
+    """class R15: matrices that are close to `mats` but not equal: one entry moved to the adjacent double, a
+    perturbation of relative size 1e-6 / 1e-9 in a random direction, a change beyond the 12th decimal"""
+    if kind is None:
+        return mats
+    rs = np.random.RandomState((seed + 977) % (2 ** 31))
+    out = []
+    for m in mats:
+        m = np.array(m, dtype=complex)
+        if kind == 'ulp':
+            i = int(np.argmax(np.abs(m.real)))
+            re = m.real.copy().reshape(-1)
+            re[i] = np.nextafter(re[i], np.inf)
+            m = re.reshape(m.shape) + 1j * m.imag
+        elif kind == '1e-13':
+            m = m * (1.0 + 1e-13)
+        else:
+            eps = 1e-6 if kind == 'rel1e-6' else 1e-9
+            m = m + eps * fro(m) * cplx(rs, *m.shape) / math.sqrt(m.size)
+            if unit:
+                m = m / fro(m)
+        out.append(m)
+    return out
+
+
 # ------------------------------------------------------------------ histories
 INIT_MODES = ['random', 'alt_min', 'closed_form', 'fix', 'svd']
 
@@ -673,8 +720,13 @@ def seed_solver(s, seed):
 class Hist:
     """executes one history on the real solver, producing the impl outputs and the model op tokens"""
 
-    def __init__(self, case, ch=None):
+    def __init__(self, case, ch=None, reuse=None):
         self.case = case
+        # class R16: every array argument is handed over in ONE preallocated buffer per role, refilled in place
+        # before the call and overwritten with other values right after it (`reuse=False`: fresh arrays, the twin)
+        self.reuse = bool(case.get('reuse', False)) if reuse is None else reuse
+        self.bufs = {}
+        self.used = []           # buffers handed over by the current op
         self.K = case['K']
         self.Nr = case['Nr']
         self.Nt = case['Nt']
@@ -685,6 +737,7 @@ class Hist:
             self.s.max_iterations = vary_count(case.get('iters', 3), case.get('iters_ty'))
         self.mode = 'random'     # the initialisation mode in force
         self.parents = []        # (object, observables) left behind by a fork (class R13)
+        self.given = {}          # attribute -> snapshot of the matrices handed to the last matrix setter
         self.pair_fail = None    # disagreement of two entry points documented as equivalent (class R8)
         self.tokens = []
         self.outs = []
@@ -701,11 +754,68 @@ class Hist:
 
     def inputs(self, *pairs):
         """remember every array / container handed to the implementation, with a snapshot taken BEFORE the call"""
+        if self.reuse:          # the harness itself overwrites these buffers (R3 is the subject of the other cases)
+            self.last_inputs = []
+            return
         self.last_inputs = [(lab, obj, freeze(obj)) for lab, obj in pairs
                             if isinstance(obj, (np.ndarray, list, tuple))]
 
+    # -- class R16: one buffer per role -------------------------------------
+    def leaf_buf(self, role, a):
+        b = self.bufs.get(role)
+        if b is None or b.shape != a.shape or b.dtype != a.dtype:
+            b = np.array(a, copy=True)
+            self.bufs[role] = b
+        else:
+            b[...] = a                       # the SAME array object with new contents
+        self.used.append(b)
+        return b
+
+    def reuse_arg(self, role, v):
+        """the argument `v` as the caller's long-lived buffer of that role, refilled in place"""
+        if not self.reuse or v is None:
+            return v
+        if isinstance(v, np.ndarray) and v.dtype != object:
+            return self.leaf_buf(role, v) if v.ndim >= 1 else v
+        if isinstance(v, (list, tuple, np.ndarray)):
+            if not all(isinstance(m, np.ndarray) and m.dtype != object for m in v):
+                return v                     # python lists of numbers / nested lists: nothing to refill
+            elems = [self.leaf_buf((role, k), m) for k, m in enumerate(v)]
+            if isinstance(v, tuple):
+                return tuple(elems)
+            cont = self.bufs.get((role, 'container'))
+            if cont is None or type(cont) is not type(v) or len(cont) != len(elems):
+                cont = list(elems) if isinstance(v, list) else objarr(elems)
+                self.bufs[(role, 'container')] = cont
+            else:
+                for k, m in enumerate(elems):
+                    cont[k] = m
+            return cont
+        return v
+
+    def scribble(self):
+        """the caller goes on using its buffers: other contents right after the call"""
+        for b in self.used:
+            if b.flags.writeable:
+                if b.dtype.kind in 'iu':
+                    b[...] = b + 1
+                elif b.dtype.kind == 'b':
+                    b[...] = ~b
+                else:
+                    b[...] = b * -3.0 + 7.0
+        self.used = []
+
     # -- one op ------------------------------------------------------------
     def do(self, op):
+        self.used = []
+        try:
+            return self.do_op(op)
+        finally:
+            if self.reuse and self.case.get('scribble', True):
+                self.scribble()
+
+    def do_op(self, op):
+        self.given = {}
         name = op[0]
         s = self.s
         K = self.K
@@ -715,7 +825,7 @@ class Hist:
         try:
             if name == 'setP':
                 self.tokens.append('setP;' + parg_tok(op[1]))
-                v = parg_py(op[1])
+                v = self.reuse_arg('P', parg_py(op[1]))
                 self.note(parg_tag(op[1]))
                 self.inputs(('P', v))
                 s.P = v
@@ -735,7 +845,9 @@ class Hist:
                 drawn = [misc.randn_c_RS(rs2, self.Nt[k], nsl[k]) for k in range(K)]
                 self.tokens.append('rand;%s;%s;%s' % (enc_arr(drawn), ns_tok(ns), parg_tok(p)))
                 s._rs = np.random.RandomState(seed)
-                a, b = ns_py(ns), parg_py(p)
+                a, b = self.reuse_arg('Ns', ns_py(ns)), self.reuse_arg('P', parg_py(p))
+                if form == 'same':       # class R16: ONE integer array is both the stream counts and the powers
+                    a = b = self.reuse_arg('NsP', np.array(nsl, dtype=int))
                 self.note(ns_tag(ns), parg_tag(p))
                 self.inputs(('Ns', a), ('P', b))
                 self.note('R8:form:' + form if form else None)
@@ -744,6 +856,11 @@ class Hist:
             if name == 'setprec':
                 d = op[1]
                 F, fF = self.precoder_args(d)
+                alias = d.get('alias')
+                if alias == 'users' and F is not None:       # class R16: ONE matrix object for every user
+                    F = [F[0]] * K
+                if alias == 'F=fullF':                       # ... ONE container as `F` and as `full_F`
+                    fF = F
                 P = d.get('P')
                 self.tokens.append('setprec;%s;%s;%s' % (enc_arr(F), enc_arr(fF),
                                                        '-' if P is None else ','.join(core.f2s(x) for x in P)))
@@ -753,10 +870,20 @@ class Hist:
                 Fa = None if F is None else vary_container(vary_mats(F, mty, d.get('hseed', 1)), cty)
                 fa = None if fF is None else vary_container(vary_mats(fF, mty, d.get('hseed', 1) + 1), cty)
                 Pa = None if P is None else vary_vec(P, pty)
+                Fa, fa, Pa = self.reuse_arg('F', Fa), self.reuse_arg('fullF', fa), self.reuse_arg('P', Pa)
+                if alias == 'users' and Fa is not None:
+                    if isinstance(Fa, tuple):
+                        Fa = tuple([Fa[0]] * K)
+                    else:
+                        for k in range(K):
+                            Fa[k] = Fa[0]
+                if alias == 'F=fullF':
+                    fa = Fa
                 self.note(mat_tag(mty),
                           'R1:container:%s' % cty if cty in ('list', 'tuple') else None,
                           parg_tag(('v', P, pty)) if P is not None else None)
                 self.inputs(('F', Fa), ('full_F', fa), ('P', Pa))
+                self.given = {'_F': freeze(Fa), '_full_F': freeze(fa)}
                 form = d.get('form')
                 self.note('R8:form:' + form if form else None)
                 if form == 'pos':
@@ -775,6 +902,11 @@ class Hist:
                     W = gen_grid(d['seed'], self.Nr, d['ns'], real=d.get('real', False), integer=d.get('integer', False))
                 else:
                     W = gen_unit(d['seed'], self.Nr, d['ns'])
+                W = near_mats(W, d.get('near'), d['seed'], unit=False)
+                if d.get('scale') is not None:
+                    W = [w * d['scale'] for w in W]
+                if d.get('alias') == 'users':
+                    W = [W[0]] * K
                 which = d['which']
                 mty, cty = d.get('mty'), d.get('cty')
                 if mty in R1_MAT and mty not in mat_types(W):
@@ -784,9 +916,16 @@ class Hist:
                 self.tokens.append('setfilt;%s;%s' % (enc_arr(wh), enc_arr(w)))
                 wha = None if wh is None else vary_container(vary_mats(wh, mty, d.get('hseed', 1)), cty)
                 wa = None if w is None else vary_container(vary_mats(w, mty, d.get('hseed', 1)), cty)
+                wha, wa = self.reuse_arg('WH', wha), self.reuse_arg('W', wa)
+                if d.get('alias') == 'users':
+                    for x in (wha, wa):
+                        if x is not None and not isinstance(x, tuple):
+                            for k in range(K):
+                                x[k] = x[0]
                 self.note(mat_tag(mty),
                           'R1:container:%s' % cty if cty in ('list', 'tuple') else None)
                 self.inputs(('W_H', wha), ('W', wa))
+                self.given = {'_W_H': freeze(wha), '_W': freeze(wa)}
                 form = d.get('form')
                 self.note('R8:form:' + form if form else None)
                 if form == 'pos':            # documented order: (W_H, W)
@@ -801,6 +940,8 @@ class Hist:
                 return ('unit',)
             if name == 'solve':
                 return self.do_solve(op)
+            if name == 'selfset':
+                return self.do_selfset(op[1])
             if name == 'clear':
                 self.tokens.append('clear')
                 s.clear()
@@ -839,6 +980,38 @@ class Hist:
             raise
         except Exception as e:     # the Python exception is the output
             return ('err', err_kind(e))
+
+    def do_selfset(self, which):
+        """class R16: the object's own arrays are handed back to its setters (the argument IS the internal array)"""
+        s = self.s
+        self.note('R16:selfset:' + which)
+        if which == 'fullF' and s._F is None:
+            which = 'F'
+        if which == 'P':
+            v = s.P
+            self.tokens.append('setP;v' + ','.join(core.f2s(float(x)) for x in np.asarray(v).reshape(-1)))
+            s.P = v
+        elif which == 'F':
+            v = s.F
+            self.tokens.append('setprec;%s;-;-' % enc_arr(v))
+            s.set_precoders(F=v)
+        elif which == 'fullF':
+            v = s.full_F
+            self.tokens.append('setprec;-;%s;-' % enc_arr(v))
+            s.set_precoders(full_F=v)
+        elif which == 'FP':
+            v, pv = s.F, s.P
+            self.tokens.append('setprec;%s;-;%s' % (enc_arr(v), ','.join(core.f2s(float(x)) for x in np.asarray(pv).reshape(-1))))
+            s.set_precoders(F=v, P=pv)
+        elif which == 'W':
+            v = s.W
+            self.tokens.append('setfilt;-;%s' % enc_arr(v))
+            s.set_receive_filters(W=v)
+        else:
+            v = s.W_H
+            self.tokens.append('setfilt;%s;-' % enc_arr(v))
+            s.set_receive_filters(W_H=v)
+        return ('unit',)
 
     def do_query(self, op):
         """a call of the non-mutating API; whatever it returns or raises, its outcome is not compared with the model
@@ -933,11 +1106,13 @@ class Hist:
                 fF = [b * a for b, a in zip(base, amp)]
             return F, fF
         F = gen_unit(d['F'], self.Nt, ns) if d.get('F') is not None else None
+        if F is not None:
+            F = near_mats(F, d.get('near'), d['F'], unit=True)
         fF = None
         if d.get('fullF') is not None:
             rs = np.random.RandomState(d['fullF'])
             amp = [math.sqrt(p) * (0.5 + 0.5 * rs.rand()) for p in d['amp_P']]
-            base = F if F is not None else gen_unit(d['fullF'] + 1, self.Nt, ns)
+            base = F if F is not None else near_mats(gen_unit(d['fullF'] + 1, self.Nt, ns), d.get('near'), d['fullF'], unit=True)
             fF = [b * a for b, a in zip(base, amp)]
         return F, fF
 
@@ -969,7 +1144,9 @@ class Hist:
             s.initialize_with = init
             self.mode = init
         seed_solver(s, seed)
-        a, b = ns_py(ns), parg_py(p)
+        a, b = self.reuse_arg('Ns', ns_py(ns)), self.reuse_arg('P', parg_py(p))
+        if form == 'same':           # class R16: ONE integer array is both the stream counts and the powers
+            a = b = self.reuse_arg('NsP', np.array(ns_list(ns, K), dtype=int))
         self.note(ns_tag(ns), parg_tag(p))
         self.inputs(('Ns', a), ('P', b))
         self.note('R8:form:' + form if form else None)
@@ -1327,6 +1504,13 @@ def gen_history(rng, tier, solver=None, length=None):
             ops.append(['clear'])
     # always end by reading every derived quantity twice
     ops += [['rFF'], ['rFWH'], ['rFW'], ['rWH'], ['rW'], ['rNs'], ['rP'], ['rFWH']]
+    # class R16: a quarter of the histories hand every array over in one refilled buffer per role; the object's own
+    # arrays are handed back to its setters
+    if rng.chance(0.25):
+        case['reuse'] = True
+    if rng.chance(0.2):
+        for _ in range(rng.randint(1, 3)):
+            ops.insert(rng.randint(1, len(ops) - 1), ['selfset', rng.choice(['F', 'fullF', 'W', 'WH', 'P', 'FP'])])
     return case
 
 
@@ -1511,7 +1695,7 @@ def solve_defined(kind, K, Nr, Nt, ns, init, noise=None):
 
 
 FIELDS = ['_F', '_full_F', '_W', '_W_H', '_full_W_H', '_full_W', '_P', '_Ns']
-MUTATORS = ('setP', 'rand', 'setprec', 'setfilt', 'solve', 'clear', 'setinit')
+MUTATORS = ('setP', 'rand', 'setprec', 'setfilt', 'solve', 'clear', 'setinit', 'selfset')
 
 
 def freeze(v):
@@ -1620,7 +1804,9 @@ def o_history(case):
     solver on the same channel object does not interfere, the channel is not modified, and after the history the
     object solves like a freshly built one"""
     h = Hist(case)
-    twin = Hist(case)                      # never sees the rejected calls, has its channel for itself
+    # never sees the rejected calls, has its channel for itself, and is handed a fresh array for every argument
+    # (class R16: the object under test gets refilled buffers when the case says so)
+    twin = Hist(case, reuse=False)
     K = h.K
     other = Other(h.ch, K, h.Nr, h.Nt, case['chan_seed'] % 1000 + 7)
     other_ref = Other(case_channel(case), K, h.Nr, h.Nt, case['chan_seed'] % 1000 + 7)
@@ -1678,6 +1864,18 @@ def o_history(case):
                 got = [float(x) for x in np.asarray(h.s.P, dtype=float).reshape(-1)]
                 if got != want:
                     return ('power-not-stored:%s%s' % (name, sfx), 'op %d: P given %r, P afterwards %r' % (i, want[:4], got[:4]))
+        if out[0] != 'err' and name in ('setprec', 'setfilt'):
+            # class R15: the matrices given are stored as the values they are (an exact copy, whatever was stored
+            # before and however close to it they are)
+            for fld, want in h.given.items():
+                if want is None:
+                    continue
+                got = getattr(h.s, fld)
+                if got is None or len(got) != len(want) or not all(
+                        np.shape(a) == np.shape(b) and np.array_equal(np.asarray(a), np.asarray(b)) for a, b in zip(got, want)):
+                    near = op[1].get('near') or ('scale' if op[1].get('scale') else None)
+                    return ('matrix-not-stored:%s:%s%s%s' % (name, fld, ':R15:' + near if near else '', sfx),
+                            'op %d: %s does not hold exactly the matrices given to %s' % (i, fld, name))
         if rejected:
             # what the harness itself does around the call (mode selection, seeding) also happens on the twin
             if name == 'solve':
@@ -1755,6 +1953,10 @@ def o_history(case):
             last_mut = name
         elif name == 'setfilt':
             last_mut = name
+        elif name == 'selfset':
+            if op[1] in ('F', 'P', 'FP'):
+                exact = True
+            last_mut = name
         if rejected:
             last_mut = name + '-rejected'
         try:
@@ -1789,7 +1991,7 @@ def o_history(case):
         if h.kind != 'closed' or cf_ok(K, h.Nr, h.Nt, ns):
             init = None if h.kind == 'closed' else 'svd'
             fin = ['solve', ns, ('s', 2.0), 4242, init]
-            fresh = Hist(case)
+            fresh = Hist(case, reuse=False)
             o1, o2 = h.do(fin), fresh.do(fin)
             if o1[0] == 'err':
                 return 'solve-raises:%s:after-history' % h.kind, 'the final solve raised %s' % o1[1]
@@ -2004,7 +2206,224 @@ def o_solve(case):
     return None
 
 
-ORACLES = {'history': o_history, 'solve': o_solve, 'monotone': o_monotone}
+# ---- classes R15 / R16: deterministic scenario sets -----------------------------
+R15_POWERS = [
+    # tiny magnitudes: all "equal" to 0 and to each other for an absolute tolerance of 1e-8
+    [('s', 4e-12), ('s', 4e-13), ('v3', [4e-13, 4e-14, 4e-15]), ('s', 1e-9), ('v3', [2e-15, 3e-15, 1e-15]), ('s', 1e-15)],
+    # large values a relative 1e-6 apart
+    [('s', 2.4e9), ('s', 2.4e9 + 2e4), ('v3', [2.4e9, 2.4e9 + 2e4, 2.4e9 - 2e4]), ('s', 2.4e9 * (1 + 1e-6))],
+    # adjacent doubles, differences beyond the 12th decimal
+    [('s', 0.3), ('s', 0.30000000000000004), ('s', 0.1 + 0.2 + 1e-13), ('v3', [0.3, 0.30000000000000004, 0.29999999999999993]),
+     ('s', 1.0), ('s', 1.0000000000001), ('s', 1.0 + 2.0 ** -52)],
+]
+
+
+def r15_power(p, K):
+    if p[0] == 'v3':
+        return ('v', [p[1][k % 3] for k in range(K)])
+    return p
+
+
+def r15_histories(rng, quick):
+    """every mutator that takes a power is called with values that are close to the value in force but different,
+    every matrix setter with matrices close to the stored ones; every derived quantity is read in between"""
+    out = []
+    reads = [['rP'], ['rFF'], ['rFWH'], ['rFW']]
+    kinds = ['base', 'minleak', 'closed'] if quick else ['base', 'minleak', 'closed', 'altmin', 'maxsinr', 'mmse']
+    for j, seq in enumerate(R15_POWERS):
+        for kind in kinds:
+            K = 3
+            n = 4 if kind == 'closed' else 3
+            ns = 2 if kind == 'closed' else 1
+            case = {'K': K, 'Nr': [n] * K, 'Nt': [n] * K, 'chan_seed': rng.below(2 ** 31), 'solver': kind, 'iters': 2,
+                    'best': False, 'noise': 0.05 if kind in ('maxsinr', 'mmse') else None, 'chan_scale': 1.0, 'ops': []}
+            ops = case['ops']
+            sd = rng.below(2 ** 31)
+            ops += [['rand', ns, r15_power(seq[0], K), sd], ['setfilt', {'which': 'W', 'seed': sd % 1000, 'ns': [ns] * K}]] + reads
+            for i, p in enumerate(seq[1:]):
+                how = (i + j) % 4
+                pp = r15_power(p, K)
+                if how == 0 or kind == 'base' and how == 3:
+                    ops.append(['setP', pp])
+                elif how == 1:
+                    ops.append(['rand', ns, pp, sd])
+                elif how == 2:
+                    ops.append(['setprec', {'ns': [ns] * K, 'F': sd % 1000, 'fullF': None, 'P': parg_vec(pp, K),
+                                            'amp_P': parg_vec(pp, K)}])
+                else:
+                    ops.append(['solve', ns, pp, sd, None if kind == 'closed' else 'random'])
+                ops += reads
+            ops += [['setP', ('s', 0.0)], ['rP'], ['rFF']]          # still rejected, and the tiny power stays in force
+            out.append(case)
+    # close matrices: precoders, scaled precoders and filters, each followed by a variant that is close to it
+    for j, near in enumerate(NEAR_KINDS):
+        K = 2 + j % 2
+        n = 3
+        sd = rng.below(2 ** 31) % 100000
+        base_p = {'ns': [1] * K, 'F': sd, 'fullF': None, 'P': None, 'amp_P': [4.0] * K}
+        base_w = {'which': 'W' if j % 2 else 'WH', 'seed': sd + 1, 'ns': [1] * K}
+        mreads = [['rF'], ['rFF'], ['rW'], ['rWH'], ['rFWH'], ['rFW']]
+        ops = [['setP', ('s', 4.0)], ['setprec', dict(base_p)], ['setfilt', dict(base_w)]] + mreads + [
+            ['setprec', dict(base_p, near=near)]] + mreads + [['setfilt', dict(base_w, near=near)]] + mreads + [
+            ['setprec', dict(base_p, F=None, fullF=sd)], ['rF'], ['rFF'], ['setprec', dict(base_p, F=None, fullF=sd, near=near)]] + mreads + [
+            # filters of tiny magnitude: 1e-12 and 1e-13 times the same matrices are different filters
+            ['setfilt', dict(base_w, scale=1e-12)]] + mreads + [['setfilt', dict(base_w, scale=1e-13)]] + mreads + [
+            ['setfilt', dict(base_w, scale=1e-13, near=near)]] + mreads
+        out.append({'K': K, 'Nr': [n] * K, 'Nt': [n] * K, 'chan_seed': rng.below(2 ** 31), 'solver': 'base', 'iters': 1,
+                    'best': False, 'noise': None, 'chan_scale': 1.0, 'ops': ops})
+    return out
+
+
+def r16_histories(rng, quick):
+    """every entry point that takes arrays is called 2-4 times with the same buffer objects refilled in place (and
+    overwritten right after each call), with one object in two roles, and with the object's own arrays"""
+    out = []
+    reads = [['rF'], ['rFF'], ['rWH'], ['rFWH'], ['rFW'], ['rNs'], ['rP']]
+    for kind in ['base', 'closed', 'altmin', 'minleak', 'maxsinr', 'mmse']:
+        for rep in range(1 if quick else 3):
+            K = 3
+            n = 4
+            ns = 2 if kind == 'closed' or rep == 1 else 1
+            sd = rng.below(2 ** 31) % 100000
+            pv = lambda: ('v', [rng.choice(SQUARES + MANT) for _ in range(K)])
+            nsv = lambda: {'v': [ns] * K, 'ty': 'arr'}
+            ops = []
+            for i in range(3):
+                ops += [['rand', nsv(), pv(), sd + i]] + reads[:2]
+            for i in range(3):
+                ops += [['setP', pv()]] + reads[1:2]
+            for i in range(4):       # the same container object (and the same matrices in it) twice in a row
+                ops += [['setprec', {'ns': [ns] * K, 'F': sd + 10 + i, 'fullF': None, 'P': pv()[1] if i % 2 else None,
+                                     'amp_P': [1.0] * K, 'cty': ['objarr', 'objarr', 'list', 'list'][i]}], ['rF'], ['rFF']]
+            for i in range(6):
+                ops += [['setfilt', {'which': ['W', 'W', 'WH', 'WH', 'W', 'W'][i], 'seed': sd + 20 + i, 'ns': [ns] * K,
+                                     'cty': ['objarr', 'objarr', 'objarr', 'objarr', 'list', 'list'][i]}]] + reads[2:5]
+            ops += [['setprec', {'ns': [ns] * K, 'F': sd + 30, 'fullF': None, 'P': [1.0] * K, 'amp_P': [1.0] * K,
+                                 'alias': 'F=fullF'}]] + reads
+            ops += [['setprec', {'ns': [ns] * K, 'F': sd + 31, 'fullF': None, 'P': None, 'amp_P': [1.0] * K,
+                                 'alias': 'users', 'cty': 'list'}]] + reads[:2]
+            ops += [['setfilt', {'which': 'W', 'seed': sd + 32, 'ns': [ns] * K, 'alias': 'users'}]] + reads
+            for w in ('F', 'W', 'P', 'fullF', 'WH', 'FP'):
+                ops += [['selfset', w]] + reads
+            ops += [['rand', [2] * K, ('v', [2.0] * K), sd + 40, 'same'], ['rNs'], ['rP'], ['rFF']]
+            if kind != 'base':
+                init = None if kind == 'closed' else ['random', 'svd', 'random'][rep % 3]
+                for i in range(3):
+                    ops += [['solve', nsv(), pv(), sd + 50 + i, init]] + reads
+                ops += [['solve', [2] * K, ('v', [2.0] * K), sd + 60, init, 'same']] + reads
+            out.append({'K': K, 'Nr': [n] * K, 'Nt': [n] * K, 'chan_seed': rng.below(2 ** 31), 'solver': kind,
+                        'iters': 2, 'best': rep == 2, 'noise': 0.05 if kind in ('maxsinr', 'mmse') else None,
+                        'chan_scale': 1.0, 'reuse': True, 'ops': ops})
+    return out
+
+
+def gen_refill_case(rng, kind=None, close=None):
+    kind = kind or rng.choice(SOLVERS)
+    K = 3
+    if kind == 'closed':
+        n, c = gen_cf_dims(rng)
+        n, c = min(n, 6), min(c, 3)
+    else:
+        n = rng.choice([3, 4])
+        c = rng.randint(1, n - 1) if kind != 'minleak' or rng.chance(0.5) else 1
+    nfill = rng.randint(2, 4)
+    return {'solver': kind, 'K': K, 'Nr': [n] * K, 'Nt': [n] * K, 'Ns': [c] * K, 'P': None,
+            'Ps': [[gen_power_value(rng) for _ in range(K)] for _ in range(nfill)],
+            'fills': [rng.below(2 ** 31) for _ in range(nfill)],
+            'close_fill': rng.chance(0.5) if close is None else close,
+            'init': None if kind == 'closed' else rng.choice(['random', 'svd'] + (['closed_form'] if 2 * c <= n else [])),
+            'iters': rng.choice([1, 2, 4]), 'seed': rng.below(2 ** 31), 'best': rng.chance(0.5),
+            'noise': rng.choice([1e-3, 0.05]) if kind in ('mmse', 'maxsinr') else None, 'chan_seed': 0}
+
+
+def solution_of(s):
+    return [('F', s.F), ('full_F', s.full_F), ('W_H', s.W_H), ('full_W_H', s.full_W_H)]
+
+
+def o_refill(case):
+    """class R16 for the channel: ONE preallocated matrix is refilled in place and handed to
+    init_from_channel_matrix of the SAME channel object before every solve of the SAME solver (the stream-count and
+    power buffers are refilled too, everything is overwritten right after the call).  The k-th solution must be the one a
+    freshly built solver computes on a freshly built channel from a copy of the contents, it must satisfy the relations
+    of the property for the CURRENT channel, and the arrays returned earlier must stay what they were.  With
+    `close_fill` (class R15) every second refill differs from the previous contents by a relative 1e-6 only."""
+    mu, _, _, _ = _mods()
+    K, Nr, Nt, ns, kind = case['K'], case['Nr'], case['Nt'], case['Ns'], case['solver']
+    buf = np.zeros((sum(Nr), sum(Nt)), dtype=complex)
+    nrb, ntb = np.array(Nr, dtype=int), np.array(Nt, dtype=int)
+    nsb, pb = np.array(ns, dtype=int), np.zeros(K)
+    ch = mu.MultiUserChannelMatrix()
+    s = None
+    kept = []
+    M = None
+    for j, (fs, P) in enumerate(zip(case['fills'], case['Ps'])):
+        G = channel_matrix(K, Nr, Nt, fs)
+        close = bool(case.get('close_fill')) and j % 2 == 1
+        M = (M + 1e-6 * G) if close else G
+        sfx = '%s%s' % (kind, ':close-contents' if close else '')
+        buf[...] = M
+        nsb[...] = ns
+        pb[...] = P
+        ch.init_from_channel_matrix(buf, nrb, ntb, K)
+        if case.get('noise') is not None:
+            ch.noise_var = case['noise']
+        if s is None:
+            s = make_solver(kind, ch, best=case.get('best', False))
+        ch2 = mu.MultiUserChannelMatrix()
+        ch2.init_from_channel_matrix(np.array(M), np.array(Nr, dtype=int), np.array(Nt, dtype=int), K)
+        if case.get('noise') is not None:
+            ch2.noise_var = case['noise']
+        s2 = make_solver(kind, ch2, best=case.get('best', False))
+        for x in (s, s2):
+            if kind != 'closed':
+                x.max_iterations = case['iters']
+                x.initialize_with = case['init']
+            seed_solver(x, case['seed'] + j)
+        try:
+            s.solve(nsb, pb)
+        except Exception as e:
+            return 'R16:channel-refill:solve-raises:' + sfx, 'fill %d: %s: %s' % (j, type(e).__name__, str(e)[:100])
+        buf[...] = buf * -3.0 + 7.0          # the caller goes on using its buffers
+        nsb[...] = nsb + 1
+        pb[...] = pb * 0.5 + 11.0
+        s2.solve(np.array(ns, dtype=int), np.array(P, dtype=float))
+        if [float(x) for x in np.asarray(s.P).reshape(-1)] != [float(x) for x in P]:
+            return 'R16:channel-refill:power-not-stored:' + sfx, 'fill %d: P given %r, stored %r' % (j, P, list(s.P))
+        if [int(x) for x in s.Ns] != [int(x) for x in s2.Ns]:
+            return 'R16:channel-refill:differs-from-fresh:Ns:' + sfx, 'fill %d: Ns %r vs %r' % (j, list(s.Ns), list(s2.Ns))
+        c1, c2 = copy.deepcopy(s), copy.deepcopy(s2)
+        for (lab, a), (_, b) in zip(solution_of(c1), solution_of(c2)):
+            if not arr_close([np.asarray(m) for m in a], [np.asarray(m) for m in b], 1e-9):
+                return ('R16:channel-refill:differs-from-fresh:%s:%s' % (lab, sfx),
+                        'fill %d: %s of the long-lived solver on the refilled channel differs from a fresh solver on a copy '
+                        'of the contents' % (j, lab))
+        # first principles, for the channel as it is NOW
+        try:
+            r = check_relations(copy.deepcopy(s), ch2, K, kind != 'mmse', kind, strict_shapes=True)
+        except Exception as e:
+            r = ('getter-raises', '%s: %s' % (type(e).__name__, str(e)[:100]))
+        if r is not None:
+            return 'R16:channel-refill:%s:%s' % (r[0], sfx), 'fill %d: %s' % (j, r[1])
+        if kind == 'closed':
+            kap = max(float(np.linalg.cond(Hkl(ch2, k, l))) for k in range(K) for l in range(K) if k != l) ** 2
+            W = s.W
+            for k in range(K):
+                for l in range(K):
+                    if k != l:
+                        x = Hm(W[k]) @ Hkl(ch2, k, l) @ s.F[l]
+                        scale = np.linalg.norm(Hkl(ch2, k, l), 2) * fro(W[k])
+                        if float(np.abs(x).max()) > 1e-8 * scale * max(1.0, kap / 1e4):
+                            return ('R16:channel-refill:not-aligned:' + sfx,
+                                    'fill %d: W_%d^H H_%d%d F_%d = %.3e for the current channel' % (j, k, k, l, l, float(np.abs(x).max())))
+        for (jj, lab, obj, snap) in kept:
+            if not same_frozen(freeze(obj), snap):
+                return ('R16:channel-refill:earlier-result-changed:%s:%s' % (lab, kind),
+                        '%s returned after fill %d changed when the channel was refilled / solved again (fill %d)' % (lab, jj, j))
+        kept += [(j, lab, obj, freeze(obj)) for lab, obj in solution_of(s)]
+    return None
+
+
+ORACLES = {'history': o_history, 'solve': o_solve, 'monotone': o_monotone, 'refill': o_refill}
 
 R1_MAT = ('c64', 'real', 'f32', 'int', 'int16')
 
@@ -2104,6 +2523,20 @@ def case_classes(case):
             out.add(t.split(':')[0])
     if any(x > 0 and not (1e-3 <= x <= 1e3) for x in pws):
         out.add('R6')
+    # R15: two different accepted powers that numpy's default closeness test would identify, or close matrices
+    pos = sorted(set(float(x) for x in pws if x > 0))
+    if any(bool(np.isclose(a, b)) for a, b in zip(pos, pos[1:])):
+        out.add('R15')
+    for op in case.get('ops', []):
+        if op[0] in ('setprec', 'setfilt') and (op[1].get('near') or op[1].get('scale')):
+            out.add('R15')
+        if (op[0] in ('setprec', 'setfilt') and op[1].get('alias')) or op[0] == 'selfset' or \
+                (op[0] in ('rand', 'solve') and op[-1] == 'same'):
+            out.add('R16')
+    if case.get('reuse') or 'fills' in case:
+        out.add('R16')
+    if case.get('close_fill'):
+        out.add('R15')
     return out
 
 
@@ -2133,6 +2566,15 @@ def run_oracle(ctx, call, case, key=None):
     if call == 'history':
         ctx.branch('oracle:R3')
         ctx.branch('oracle:R7')
+        if case.get('reuse'):
+            ctx.branch('oracle:R16:reused-buffers')
+        if any((op[0] in ('setprec', 'setfilt') and op[1].get('alias')) or (op[0] in ('rand', 'solve') and op[-1] == 'same')
+               for op in case['ops']):
+            ctx.branch('oracle:R16:one-object-two-roles')
+    if call == 'refill':
+        ctx.branch('oracle:R16:channel-refill')
+        if case.get('close_fill'):
+            ctx.branch('oracle:R15:close-refill')
     try:
         r = ORACLES[call](case)
     except core.Infra:
@@ -2560,8 +3002,10 @@ def check(ctx):
     ctx.required_branches = ['op:setP', 'op:rand', 'op:setprec', 'op:setfilt', 'op:solve', 'op:clear', 'op:rFWH',
                              'op:rFW', 'op:rFF', 'op:setinit', 'out:err:ValueError', 'out:err:RuntimeError',
                              'out:err:TypeError', 'op:query', 'op:fork'] + [
-                             'corr:R%d' % i for i in (1, 2, 3, 4, 5, 6, 7, 8, 9, 10, 11, 13, 14)] + [
-                             'oracle:R%d' % i for i in (1, 2, 3, 4, 5, 6, 7, 8, 9, 10, 11, 13, 14)] + ['formula:scale', 'formula:closed:Ns<N/2',
+                             'corr:R%d' % i for i in (1, 2, 3, 4, 5, 6, 7, 8, 9, 10, 11, 13, 14, 15, 16)] + [
+                             'oracle:R%d' % i for i in (1, 2, 3, 4, 5, 6, 7, 8, 9, 10, 11, 13, 14, 15, 16)] + [
+                             'op:selfset', 'oracle-ok:refill', 'oracle:R16:channel-refill', 'oracle:R15:close-refill',
+                             'oracle:R16:reused-buffers', 'oracle:R16:one-object-two-roles','formula:scale', 'formula:closed:Ns<N/2',
                              'formula:closed:Ns=N/2', 'oracle:closed-form:Ns<N/2', 'oracle:closed-form:Ns=N/2',
                              'formula:system', 'formula:closed', 'formula:store', 'oracle-ok:solve',
                              'oracle-ok:monotone', 'oracle-ok:history']
@@ -2574,7 +3018,9 @@ def check(ctx):
     if not quick:
         many += [gen_many_users(ctx.rng, 258, 'base'), gen_many_users(ctx.rng, 300, 'base'),
                  gen_many_users(ctx.rng, 257, 'minleak')]
-    cases = list(CORPUS_HISTORIES) + many + [gen_history(ctx.rng, ctx.tier) for _ in range(nh)]
+    # classes R15 / R16: small deterministic scenario sets (own random stream: the other cases of a seed are unchanged)
+    robust = r15_histories(ctx.rng.fork('r15'), quick) + r16_histories(ctx.rng.fork('r16'), quick)
+    cases = list(CORPUS_HISTORIES) + many + robust + [gen_history(ctx.rng, ctx.tier) for _ in range(nh)]
     try:
         correspond_histories(ctx, cases)
         correspond_formulas(ctx, nf)
@@ -2587,9 +3033,15 @@ def check(ctx):
     for call, case in corpus_cases():
         run_oracle(ctx, call, case)
         ctx.branch('corpus')
-    for case in CORPUS_HISTORIES + many[:1 if quick else 2]:
+    for case in CORPUS_HISTORIES + many[:1 if quick else 2] + robust:
         run_oracle(ctx, 'history', case)
-    first = len(CORPUS_HISTORIES) + len(many)
+    rr = ctx.rng.fork('refill')
+    for kind in SOLVERS:
+        for close in (True, False):
+            run_oracle(ctx, 'refill', gen_refill_case(rr, kind, close))
+    for _ in range(0 if quick else 200):
+        run_oracle(ctx, 'refill', gen_refill_case(rr))
+    first = len(CORPUS_HISTORIES) + len(many) + len(robust)
     for case in cases[first:first + (nh if quick else nh // 4)]:
         run_oracle(ctx, 'history', case)
     for kind in SOLVERS:
@@ -2606,6 +3058,10 @@ def check(ctx):
 
 def search(ctx):
     rng = ctx.rng.fork('search')
+    for case in r15_histories(rng.fork('r15'), False) + r16_histories(rng.fork('r16'), False):
+        run_oracle(ctx, 'history', case)
+        if ctx.failures:
+            return
     for _ in range(600):
         run_oracle(ctx, 'history', gen_history(rng, 'thorough'))
         if ctx.failures:
@@ -2613,5 +3069,6 @@ def search(ctx):
     for _ in range(300):
         run_oracle(ctx, 'solve', gen_solve_case(rng))
         run_oracle(ctx, 'monotone', gen_monotone_case(rng))
+        run_oracle(ctx, 'refill', gen_refill_case(rng))
         if ctx.failures:
             return
